@@ -1234,6 +1234,16 @@ impl Core {
 			*active_memtable = memtable;
 		}
 
+		// The WAL writer was opened before the replay. A repair during the replay
+		// rewrites (or removes) segment files by path, which would leave that writer
+		// appending to an unlinked file. Open the writer again on what is on disk now.
+		{
+			let mut wal_guard = inner.wal.write();
+			let new_wal =
+				Wal::open_with_min_log_number(&wal_path, min_wal_number, wal::Options::default())?;
+			*wal_guard = new_wal;
+		}
+
 		// Ensure the active memtable has the correct WAL number set
 		{
 			let active_memtable = inner.active_memtable.read()?;
@@ -1623,6 +1633,18 @@ impl Tree {
 		if let Some(memtable) = recovered_memtable {
 			let mut active_memtable = self.core.inner.active_memtable.write()?;
 			*active_memtable = memtable;
+		}
+
+		// As at startup: a repair during the replay may have replaced segment files
+		// underneath the writer opened above; open it again on what is on disk now.
+		{
+			let mut wal_guard = self.core.inner.wal.write();
+			let new_wal = Wal::open_with_min_log_number(
+				&wal_path,
+				manifest_log_number,
+				wal::Options::default(),
+			)?;
+			*wal_guard = new_wal;
 		}
 
 		// Ensure the active memtable has the correct WAL number set
